@@ -313,3 +313,72 @@ pub fn run(a: &Args) {
     });
     println!("log={}", log.lock().unwrap().join(","));
 }
+
+/// C01 / C03: a kill that lands in the await-free stretch between the loop picking up a stop request and the first poll of `post_stop` (delivered from the
+/// hook point in `set_status(Stopping)`, on the actor's own thread, as a second thread pre-empting there would): `post_stop` must not be entered.
+/// `kill_window mode=stop|drain`
+pub fn kill_window(a: &Args) {
+    use ractor::verif_hooks as vh;
+    use std::sync::atomic::{AtomicBool, Ordering};
+    use std::sync::Arc;
+    struct W {
+        log: Log,
+    }
+    impl Actor for W {
+        type Msg = u64;
+        type State = ();
+        type Arguments = ();
+        async fn pre_start(&self, _: ActorRef<u64>, _: ()) -> Result<(), ActorProcessingErr> {
+            Ok(())
+        }
+        async fn handle(&self, _: ActorRef<u64>, m: u64, _: &mut ()) -> Result<(), ActorProcessingErr> {
+            self.log.lock().unwrap().push(format!("handle:{}", m));
+            Ok(())
+        }
+        async fn post_stop(&self, _: ActorRef<u64>, _: &mut ()) -> Result<(), ActorProcessingErr> {
+            self.log.lock().unwrap().push("post_stop_entered".to_string());
+            Ok(())
+        }
+    }
+    let mode = a.str("mode").to_string();
+    let rt = tokio::runtime::Builder::new_current_thread().enable_time().build().unwrap();
+    let log: Log = Default::default();
+    rt.block_on(async {
+        let (sup, sup_handle) = Actor::spawn(None, Sup { log: log.clone() }, ()).await.unwrap();
+        let (actor, handle) = Actor::spawn_linked(None, W { log: log.clone() }, (), sup.get_cell()).await.unwrap();
+        actor.cast(1).unwrap();
+        tokio::task::yield_now().await;
+        tokio::task::yield_now().await;
+        let armed = Arc::new(AtomicBool::new(false));
+        let killed = Arc::new(AtomicBool::new(false));
+        {
+            let (armed, killed, cell, log) = (armed.clone(), killed.clone(), actor.get_cell(), log.clone());
+            vh::set_observer(Box::new(move || {
+                // first hook point the actor task passes once it is on its way out: the status is published as Stopping right there
+                if armed.load(Ordering::SeqCst) && !killed.swap(true, Ordering::SeqCst) {
+                    cell.kill();
+                    log.lock().unwrap().push("kill_returned".to_string());
+                }
+                0
+            }));
+        }
+        vh::install_schedule(vec![], 1);
+        vh::enter_thread(0);
+        match mode.as_str() {
+            "drain" => {
+                let _ = actor.drain();
+            }
+            _ => actor.stop(None),
+        }
+        armed.store(true, Ordering::SeqCst);
+        let _ = tokio::time::timeout(std::time::Duration::from_secs(3), handle).await;
+        vh::leave_thread();
+        let _ = vh::take_log();
+        for _ in 0..5 {
+            tokio::task::yield_now().await;
+        }
+        sup.stop(None);
+        let _ = sup_handle.await;
+    });
+    println!("log={}", log.lock().unwrap().join(","));
+}
